@@ -188,10 +188,16 @@ prop(
 
 prop(
     id="C09", module="Properties.C09", vfile="Properties/C09.v", level="proof", subcmd="c09",
-    subcmds=[("c09", {"quick": 320, "thorough": 12000, "search": 1600}), ("c09e", {"quick": 32000, "thorough": 2000000, "search": 200000})],
-    theorems=["C09_entry_roundtrip", "C09_key_recovered", "C09_page_and_partial_key_identify", "C09_growth_preserves_reads"],
+    subcmds=[("c09", {"quick": 320, "thorough": 12000, "search": 1600}), ("c09e", {"quick": 32000, "thorough": 2000000, "search": 200000}),
+             ("c09s", {"quick": 480, "thorough": 16000, "search": 1600})],
+    theorems=["C09_entry_roundtrip", "C09_key_recovered", "C09_page_and_partial_key_identify", "C09_growth_preserves_reads", "Slots.C09_slot_index_lookup_is_spec"],
     counts={"quick": 320, "thorough": 12000, "search": 1600},
-    rule="(c09) growth histories: column 0 is a uniform-key hash column under the zero salt (identity hash), 66-90 keys aimed at ONE index page "
+    rule="(c09s, slot level) 66-100 uniform keys under the zero salt aimed at one or two index pages (a sixth sharing the first 8 bytes with another key; in 'deep' "
+         "mode 130-150 keys that also share bit 17, so that three index generations coexist), 100-270 operations, each its own drained transaction: set (new key, same size "
+         "tier, other size tier), remove, one reindex batch, drop + reopen; after EVERY operation every non-empty slot of the keys' pages in every index file is read raw "
+         "(slot number, the 50 key bits the entry lets one recover, address) and compared with the generations the model's istep predicts; the address a value was put at "
+         "is read back from the files and given to the model (the allocator is C14's subject); every key is read through the API as well. "
+         "(c09) growth histories: column 0 is a uniform-key hash column under the zero salt (identity hash), 66-90 keys aimed at ONE index page "
          "(equal first two bytes), a sixth of them sharing page AND partial key with another key (equal first 8 bytes, different tail), another sixth "
          "separating only one or two index generations later; 25-60 steps of {commit of 1-24 operations, process, flush, enact, reindex batch, clean, "
          "drop+reopen} then a drain and a reopen; every key read after every step. Non-trivial = the index of column 0 actually grew (index_00_17 appeared); "
@@ -199,7 +205,9 @@ prop(
          "and boundary (bits, key prefix, address); plus, oracle only, one BULK growth history per 2000 codec cases: 2500-4000 index pages with 2-5 uniform keys each and one "
          "page filled with 65-70 keys, committed in batches of 300-900, the reindex run to the end and the old index dropped (more live entries than one reindex "
          "batch of 8192 moves, so a batch boundary falls inside a page); every key read after the growth and after a reopen",
-    assumptions=["a reindex batch is modelled as a step without logical effect; slot-level behaviour of the index (insertion into an empty slot, continuation after a tail mismatch) is tied by the growth histories, not proved",
+    assumptions=["slot-level model: page search compares all stored key bits (exact from 18 index bits on - C19_equal_from_18_bits; with 16 or 17 bits the code compares 32 of the 34 / 33 stored bits, which only adds candidates that the has_key_at check rejects); a write is given an address at which no other key's value lives (C14); the log overlay of the index is not distinguished from the file (every operation is drained in the correspondence)",
+                 "distinct keys differ in the key bytes the value table stores (see DESIGN 10.3, observation O1)",
+                 "pipeline-level model: a reindex batch is a step without logical effect",
                  "index files larger than 17-18 bits are not created in checks; the entry theorems cover 16..49"],
     explanation="entry packing and key recovery proved for all index sizes; growth = no logical change at pipeline level; correspondence on page-overflow histories",
 )
